@@ -96,6 +96,106 @@ def vectors(n, keys, settings, fanouts, rng):
                 yield c
 
 
+def pinned_cases():
+    """The scenarios EVERY run executes, whatever the seed (no random draw decides whether a class is covered; seeds and
+    strategies of these cases are fixed):
+    (a) every behaviour of the alphabet at every position relative to the fanout window -- first, middle, last among
+        healthy hosts, and all hosts alike -- with N = 3 and fanout 1 and 2, under -t and -u both set, -t only
+        (command timeout 0) and -u only (connect timeout 0), the property's own exclusions left out;
+    (b) descriptor numbers: pdsh started with stdin / stdin+stdout / all of stdio closed, so that connections are
+        handed the descriptors 0, 1, 2 (with and without -s, healthy and faulty hosts);
+    (c) the pdcp worker `_rcp_thread` (same slot protocol, own code): every connect-phase behaviour, pairs, fanout
+        1 and 2, through the acceptor as well."""
+    out = []
+    strategies = ["uniform", "starveD", "eagerD"]
+
+    def add(behs, f, ct, ut, sopt, **opts):
+        c = T.mk_case(behs, f, ct, ut, sopt, 7000 + len(out), strategy=strategies[len(out) % 3])
+        c["opts"].update(opts)
+        c["pinned"] = True
+        if not T.excluded(c):
+            out.append(c)
+    for ct, ut, sopt in ((2, 3, True), (1, 0, False), (0, 2, False)):
+        A = T.alphabet(ct, ut)
+        for k in sorted(A):
+            for f in (1, 2):
+                add([A[k], A["ok"], A["ok2"]], f, ct, ut, sopt)
+                add([A["ok"], A[k], A["ok2"]], f, ct, ut, sopt)
+                add([A["ok"], A["ok2"], A[k]], f, ct, ut, sopt)
+            add([A[k], A[k], A[k]], 2, ct, ut, sopt)
+    A = T.alphabet(2, 3)
+    for low in (1, 3, 7):
+        for sopt in (False, True):
+            for vec in (["ok", "ok2"], ["ok2", "hang-after"], ["refuse", "ok"], ["exit3", "close-out-early"]):
+                for f in (1, 2):
+                    add([A[k] for k in vec], f, 2, 3, sopt, lowfds=low)
+    conn = ["silent", "refuse", "refuse-late", "hang-connect", "conn-at", "conn-over", "conn-far"]
+    for a in conn:
+        for b in conn:
+            for f in (1, 2):
+                # a copy relays no command output: the remote side of a pdcp connection says nothing on its streams
+                add([dict(A[a], out=[[0, "EOF"]], err=[[0, "EOF"]]) if A[a]["conn"][0] == "ok" else A[a],
+                     dict(A[b], out=[[0, "EOF"]], err=[[0, "EOF"]]) if A[b]["conn"][0] == "ok" else A[b]],
+                    f, 2, 3, False, pers="pcp")
+    return out
+
+
+def failfast_cases():
+    """-k (fail-fast), which the property names as the exception to `pdsh terminates instead of waiting`: pinned runs
+    judged by an oracle of their own (`failfast_offenders`)."""
+    A = T.alphabet(5, 0)
+    out = []
+    for i, (vec, f, bad) in enumerate([(["ok", "ok2", "silent"], 2, None), (["ok2", "close-err-early"], 1, None),
+                                       (["refuse", "hang-after", "ok2"], 3, 0), (["hang-after", "refuse"], 2, 1),
+                                       (["ok", "refuse", "hang-silent"], 1, 1), (["hang-after", "hang-connect"], 2, 1)]):
+        c = T.mk_case([A[k] for k in vec], f, 5, 0, False, 7500 + i, strategy="eagerD")
+        c["opts"]["k"] = 1
+        c["failfast"] = {"failing": bad}
+        out.append(c)
+    return out
+
+
+def failfast_offenders(res):
+    """-k: (1) as long as no host fails, -k changes nothing (the ordinary oracle applies); (2) when a host fails
+    (connect refused / timed out) pdsh must not wait for the others -- not even for one that hangs with no command
+    timeout set: it forwards SIGTERM to every command that is running and exits with a non-zero status at that very
+    virtual instant."""
+    if res["crash"] is not None or res["bug"]:
+        return T.offenders(res)
+    bad = res["case"]["failfast"]["failing"]
+    m = res["M"]
+    if bad is None:
+        return T.offenders(res)
+    out = []
+    if m["status"] != "exit" or int(m["code"]) == 0:
+        return [("failfast:no-exit", "-k and %s fails, but the run ends with status=%s code=%s instead of a non-zero "
+                 "exit" % (res["case"]["hosts"][bad]["name"], m["status"], m["code"]))]
+    H = T.observe(res)
+    running, fwd, t_fail, t_end = set(), set(), None, 0
+    for _, now, th, ev in T.events(res):
+        t_end = now
+        if th.startswith("W") and ev[0] == "connectEnd":
+            i = int(th[1:])
+            if int(ev[2]) >= 0:
+                running.add(i)
+            elif i == bad and t_fail is None:
+                t_fail = now
+        elif th.startswith("W") and ev[0] == "destroyEnd":
+            running.discard(int(th[1:]))
+        elif ev[0] == "fwd" and int(ev[2]) == 15:
+            fwd.add(int(ev[1]))
+    if t_fail is None:
+        out.append(("failfast:harness", "the failing host never failed"))
+    elif t_end > t_fail:
+        out.append(("failfast:waited", "-k: %s failed at %d but pdsh went on until %d" %
+                    (res["case"]["hosts"][bad]["name"], t_fail, t_end)))
+    miss = sorted(running - fwd)
+    if miss:
+        out.append(("failfast:not-signalled", "-k: pdsh exits but the running command(s) of %s were not sent SIGTERM" %
+                    ",".join(res["case"]["hosts"][i]["name"] for i in miss)))
+    return out
+
+
 def run(ctx):
     rng = ctx.rng
     ctx.gen_consts(["dsh"])
@@ -145,10 +245,10 @@ def run(ctx):
             elif isinstance(case, dict) and "hosts" in case:
                 res = T.run_cases(exe_san, [case], ctx.scratch)[0]
                 ctx.log("replay: monitors %s" % (res["M"],))
-                for sig, what in T.offenders(res):
+                for sig, what in (failfast_offenders(res) if case.get("failfast") else T.offenders(res)):
                     ctx.log("replay: %s %s" % (sig, what))
                     ctx.offender(sig, what, T.pack(res))
-                if case.get("yield") == "fan" and res["crash"] is None:
+                if case.get("yield") == "fan" and res["crash"] is None and not case.get("failfast"):
                     bad = T.accept_all(ctx, [T.project(res, *variant)])[0]
                     if bad:
                         ctx.disagreement("Timed LTS vs dsh.c", "line %d `%s`: %s" % bad, T.pack(res))
@@ -306,6 +406,16 @@ def explore(ctx, exe_san, exe, variant, cov, dist):
     for c in corpus:
         c["budget"] = 20000
     run_chunked(corpus, "corpus")
+    pinned = pinned_cases()
+    dist["pinned"] = len(pinned)
+    run_chunked(pinned, "pinned scenarios (fault kind x window position x timeout options, descriptors 0-2, pdcp worker)")
+    ff = T.run_cases(exe_san, failfast_cases(), ctx.scratch)
+    dist["failfast_runs"] = len(ff)
+    for r in ff:
+        cov["evaluations"] += 1
+        for sig, what in failfast_offenders(r):
+            pending.append((len(r["case"]["hosts"]), len(r["steps"]), sig, what, r))
+            newcount[0] += 1
     settings_q = [(2, 3, True), (1, 0, False), (3, 1, True)]
     settings_t = [(2, 3, True), (1, 0, False), (3, 1, True), (2, 2, False), (0, 2, True), (5, 4, True)]
     if ctx.quick():
